@@ -59,6 +59,16 @@ CLAIMED["C02"] = dict(
     note="Trusted: the documentation formulas as transcribed in vp/refphys.py (Nikuradse constant 1.14 for gases taken from the code), the "
          "library fluid tables. Section values of multi-section pipes come from Pipe.get_internal_results (contiguous pipe index only).",
     ref="DESIGN.md 4/C02")
+CLAIMED["C03"] = dict(
+    technique="property-based testing (Hypothesis): set-point identities re-evaluated on the result tables of generated networks",
+    text="Exploration: generated hydraulic nets and heating loops with any number and placement of ext grids (several per junction, out of "
+         "service), pressure / flow controllers (control_active on/off), compressors, pumps, circulation pumps and scaled loads; each "
+         "documented set-point clause (mean ext-grid pressure, p_flow, controlled pressure, set mass flow, lift, absolute pressure ratio incl. "
+         "hydrostatic term, pump curve at the reported volume flow, mdot*scaling) is an identity on the result tables with round-off "
+         "tolerances (plus one Newton step for quantities evaluated from the previous iterate).",
+    note="Trusted: pump curve = numpy.polyval of the type's reg_par; over-determined junctions (ext grid + controlled junction) are not asserted; "
+         "no clause at exactly zero flow through a pump/compressor (discontinuous lift).",
+    ref="DESIGN.md 4/C03")
 NOT_YET = {}
 
 def main():
